@@ -10,7 +10,7 @@ import numpy as np
 
 from sim import filgen
 from sim import transforms as T
-from sim.core import open_reader, Rejected, SimCrash, SimLivelock, Violation
+from sim.core import fpath, open_reader, Rejected, SimCrash, SimLivelock, Violation
 from sim.disk import SimDisk
 
 from .c07 import warm as _warm07
@@ -215,7 +215,7 @@ def execute(sc, ctx) -> None:
     mk = mk_for("golden")
     with SimDisk(ctx, []) as sim:
         def hook(kind, writer, payload, size_before, size_after, append_only):
-            path = writer.file_obj.name
+            path = fpath(writer.file_obj.name)
             cur = slurp(path)
             prev = snaps.get(path)
             rel = ctx.rel(path)
